@@ -1,17 +1,18 @@
 #!/usr/bin/env python3
 """usage: mut.py <Cnn> <name> <expect-regex> <file> [<file2> ...]  (stdin: blocks 'old\n=====\nnew' separated by a line '#####', one per file)
 Applies the textual replacements to /repo, then runs mkmutant.sh (build check, capture diff, restore)."""
-import sys, subprocess
+import sys, subprocess, os
+REPO = os.environ.get("MUTREPO", "/repo")
 cid, name, expect, *files = sys.argv[1:]
 blocks = sys.stdin.read().split("\n#####\n")
 assert len(blocks) == len(files), (len(blocks), len(files))
 for f, b in zip(files, blocks):
     old, new = b.split("\n=====\n")
     new = new.rstrip("\n") if not old.endswith("\n") else new
-    p = "/repo/" + f
+    p = REPO + "/" + f
     s = open(p).read()
     if s.count(old) != 1:
-        subprocess.run(["git", "-C", "/repo", "checkout", "--", "."])
+        subprocess.run(["git", "-C", REPO, "checkout", "--", "."])
         sys.exit(f"{f}: old text occurs {s.count(old)} times")
     open(p, "w").write(s.replace(old, new))
 sys.exit(subprocess.run(["/verif/tools/mkmutant.sh", cid, name, expect]).returncode)
